@@ -40,6 +40,30 @@ CHECKS = {
  "C20": ("exploration", "runtime monitor: Rewind at every call count, result sequence compared with a fresh Demuxer; reader tap confirms the seek",
          "Every k in 0..calls (strided for long streams in quick) x three APIs x explicit/auto x repeated rewinds x chunked reads, classified by state at rewind time.",
          "In-memory seekable reader; streams satisfy the PAT-before-PMT precondition.", "DESIGN.md §4 C20"),
+ "C01": ("exploration", "round-trip runtime monitor: Muxer histories -> writer tap -> library Demuxer and independent reference reassembly, compared with the expected log kept by the harness",
+         "Random histories (explicit/auto PIDs, all stream types, ES descriptors, removals and re-adds, failing calls) with boundary payload lengths, all writer-supported PES header combinations, first-packet adaptation fields of every fit class; sweep of every payload length 1..1200 (+65500..65600 thorough) for 8 shapes.",
+         "Trusts refts (PES/packet/PSI codecs); StreamID 0 compared with StreamType.ToPESStreamID; an adaptation field too big to share the first packet is only required not to disturb the PES.", "DESIGN.md §4 C01"),
+ "C03": ("exploration", "hostile-input runtime monitor in isolated child processes: call guard (panics), logical call bound to ErrNoMorePackets, post-EOF calls, truncated-final-packet equivalence; journal + watchdog for non-returning calls",
+         "Random, structured-then-mutated (9 mutation kinds over reference- and library-muxed streams with rich tables), truncated-at-every-offset, empty and tiny inputs, stored fuzz corpora; configuration cross product packet size x reader x read schedule x API x options.",
+         "Termination is a logical bound (calls ≤ len+64); a watchdog firing outside a library frame is inconclusive.", "DESIGN.md §4 C03"),
+ "C04": ("exploration", "writer tap + call records + independent packet/section decoder applied after every call of random Muxer histories (valid and rejected arguments) and an exhaustive WritePacket size grid",
+         "Every call: output length multiple of 188, returned n equals bytes delivered, every packet conformant, unit starts flagged correctly, PES length consistent; rejected calls leave nothing partial.",
+         "The writer accepts everything (failures are C18); WritePacket inputs are self-consistent packets or oversize ones.", "DESIGN.md §4 C04"),
+ "C05": ("exploration", "online trace checker of continuity_counter per PID over the writer tap's packet log, driven by the C04 histories",
+         "PAT, PMT and every elementary PID between Add and Remove, ≥16 packets per PID (wrap), failing table emissions followed by successful ones, adaptation fields leaving no room for the PES header, removals and re-adds.",
+         "Packets without payload neither advance nor consume the counter.", "DESIGN.md §4 C05"),
+ "C09": ("fault_enumeration", "corruption injection on reference-encoded sections (every single-bit flip per unit, substitutions, bursts, length rewrites, truncation) with the reference decoder's accept/reject as oracle; Muxer/writePSIData sections judged by the reference CRC and length walk",
+         "All bit flips of 216 (quick) / 3000 (thorough) units across the six table types, 20k/500k other corruptions; every PAT/PMT the Muxer emits for ES descriptors of every supported tag (Length right/0/wrong).",
+         "Error or nothing is always acceptable for a corrupted unit.", "DESIGN.md §4 C09"),
+ "C16": ("exploration", "alias monitor (deep snapshots re-compared after later calls, pool recycling, input poisoning) + Go race detector over concurrent independent instances compared with solo runs",
+         "Every returned Packet/DemuxerData snapshotted and re-compared; Muxer caller bytes re-compared; N in {2..64} goroutines x repetitions under -race with GC/Gosched pressure; switch points counted.",
+         "Schedules are those the Go scheduler produced; race reports without a library frame are inconclusive.", "DESIGN.md §4 C16"),
+ "C17": ("exploration", "reference state machine (from the property statement) over the writer tap's packet log; bounded-exhaustive histories + random histories",
+         "All operation words up to length 5 (quick) / 6 (thorough) over a 9-letter alphabet x periods 1..3, random histories to 200 operations with >32 content changes and failing emissions, explicit-vs-automatic PID collisions.",
+         "Required emission points are a lower bound; failing WriteData calls are not counted towards the period.", "DESIGN.md §4 C17"),
+ "C18": ("fault_enumeration", "reader/writer taps injecting a sentinel failure at every byte offset / every Write call index; errors.Is and byte accounting as oracle",
+         "Reader: every offset of small streams (strided for larger) x 3 reader kinds x explicit/auto x 2 APIs. Writer: every Write index of the fault-free run x permanent/one-shot x reject/partial.",
+         "After the first surfaced error the run stops.", "DESIGN.md §4 C18"),
 }
 
 NOT_YET = {}
